@@ -369,6 +369,12 @@ func minimise(in *input, scratch string, first *diff) (*input, *diff) {
 	return best, bestDiff
 }
 
+// causes: writer features that were the sole feature of a minimised failing document, with the key they got.
+var causes struct {
+	sync.Mutex
+	list [][2]string
+}
+
 func docKind(d *doc) string {
 	if d.Format == "gotest" {
 		return "gotest"
@@ -915,7 +921,7 @@ func TestC26(t *testing.T) {
 	}
 	scratch := r.Scratch()
 
-	nIP := r.Pick(3000, 300000)
+	nIP := r.Pick(3000, 80000)
 	r.ForEach("ip", nIP, 8, func(i int, rng *rand.Rand) {
 		in := genInput(rng)
 		// documents outside the asserted formats are looked at on their own
@@ -964,6 +970,34 @@ func TestC26(t *testing.T) {
 			}
 			return
 		}
+		// A failure that goes away when one writer feature already reported as a minimal cause is dropped
+		// everywhere belongs to that key: no need to minimise it again (this keeps the run fast while a
+		// known defect is open, and leaves the budget for failures with another cause).
+		causes.Lock()
+		known := append([][2]string(nil), causes.list...)
+		causes.Unlock()
+		for _, kc := range known {
+			c := &input{Dir: asserted.Dir}
+			had := false
+			for _, d := range asserted.Docs {
+				d2 := cloneDoc(d)
+				var fs []string
+				for _, f := range d2.Features {
+					if f == kc[0] {
+						had = true
+						continue
+					}
+					fs = append(fs, f)
+				}
+				d2.Features = fs
+				c.Docs = append(c.Docs, d2)
+			}
+			if had && c.check(scratch) == nil {
+				r.Obs("ip_failures_explained_by_reported_cause", 1)
+				r.Violation(kc[1], "same cause as the recorded witness of this key", nil, i)
+				return
+			}
+		}
 		min, mdf := minimise(asserted, scratch, df)
 		var rendered []string
 		var kinds, feats []string
@@ -985,6 +1019,11 @@ func TestC26(t *testing.T) {
 		}
 		r.Violation(key, fmt.Sprintf("parsed results differ from what was written (%s): %s", mdf.Kind, mdf.Detail),
 			map[string]any{"minimal_input": min, "minimal_rendered": rendered, "minimal_expected": min.expected(), "difference": mdf, "original_input": asserted, "original_difference": df}, i)
+		if len(min.Docs) == 1 && len(min.Docs[0].Features) == 1 { // only after the witness is recorded
+			causes.Lock()
+			causes.list = append(causes.list, [2]string{min.Docs[0].Features[0], key})
+			causes.Unlock()
+		}
 	})
 	r.RequireObserved("ip_parses", "ip_cases_compared", "ip_results_directories")
 
@@ -993,7 +1032,7 @@ func TestC26(t *testing.T) {
 		r.FatalInconclusive("VERIF_PLZ is not set: the E2E layer did not run")
 		return
 	}
-	nE := r.Pick(40, 600)
+	nE := r.Pick(40, 300)
 	var fmu sync.Mutex
 	findings := map[string]*e2eFinding{} // per key: the most severe witness (verdict > summary > report), minimised
 	r.ForEach("e2e", nE, 6, func(i int, rng *rand.Rand) {
